@@ -24,20 +24,20 @@ CLAIMED = {
             TECH + " (run to a fix-point for one scope)", NOTE),
     "C18": ("Every state reachable by <= depth record-adding calls (factories in every spelling, new_record, "
             "add_record, update, on a document and a bundle) and every container derived from it by constructor / "
-            "unified / flattened / update / add_bundle / JSON / XML reload is probed with every spelling of every "
-            "present identifier and absent ones (questions that cannot register a namespace first), also after the transformations and exporters have read the container; look-ups of unresolvable names are part of the histories; get_record, get_records(cls) and records are compared with a scan "
+            "unified / flattened / update / add_bundle / JSON / XML reload is probed (string spellings before QualifiedName objects) with every spelling of every "
+            "present identifier and absent ones (questions that cannot register a namespace first), also after the transformations and exporters have read the container; look-ups of unresolvable names are part of the histories; get_record, get_records(cls) and records are compared with a scan (and typed listings must be snapshots: consumed after a later addition they still show the earlier state) "
             "of the record list.", TECH, NOTE),
     "C08": ("Every document reachable by <= depth record/attribute additions that make identifiers collide (same "
             "identifier through a prefix, an alias prefix and the full URI; entity/agent/activity; generation/usage; "
-            "conflicting times and activities; document and bundle) is unified and compared with a reference "
+            "conflicting times and activities; identified memberships with and without a member; document and bundle; 34 letters) is unified and compared with a reference "
             "unification computed on strict observations: result content and order, refusal iff a single-valued "
             "conflict exists, idempotence, bundle-level unified(), source unchanged.", TECH, NOTE),
-    "C09": ("All states of a 23-letter document alphabet to depth 3 are collected; for every ordered pair (d, other) "
+    "C09": ("All states of a 25-letter document alphabet (incl. falsy values and PROV argument names as additional attributes) to depth 3 are collected; for every ordered pair (d, other) "
             "every sequence of up to 2 operations (thorough: 3 on the smallest pairs, 1-2 on deep x shallow and deep x deep pairs) from update / add_bundle (document, no identifier, "
             "duplicate identifier as object and as string, stand-alone bundle, bundle under another identifier, unresolvable identifier) / flattened is executed on fresh replays and compared step by "
             "step with multiset arithmetic on strict observations; other must stay unchanged, refusals must leave d "
             "unchanged, and the result must survive a PROV-JSON round trip.", TECH, NOTE),
-    "C12": ("All states of a 13-letter alphabet x every deriving operation (record copy, add_record, constructor, "
+    "C12": ("All states of a 14-letter alphabet (incl. a renamed prefix) to depth 3 (thorough 4) x every deriving operation (record copy, add_record, constructor, "
             "into another and into the own container, update, add_bundle(document), unified, flattened, JSON/XML reload) x every follow-up mutation (attribute "
             "on each record, new record, add_namespace incl. clashing, set_default_namespace, bundle(), the same "
             "inside each bundle) x side mutated (thorough: x a second mutation on the other side); the untouched "
@@ -82,29 +82,29 @@ CLAIMED = {
             "declarations first, bundles last, ECHAR escapes, typed / language literals) and the parsed document must "
             "equal the strict observation of the original.", TECH + "; independent PROV-N parser as oracle",
             NOTE + "; the PROV-N parser (written from the grammar as recalled in DESIGN appendix A.1) is trusted"),
-    "C14": ("Every bundle-free document reachable by <= depth calls of a 27-letter alphabet (declared and undeclared "
+    "C14": ("Every bundle-free document reachable by <= depth calls of a 28-letter alphabet (declared and undeclared "
             "endpoints, entity+agent under one identifier, eight relation kinds, self-loops, parallel duplicates, "
             "identified/anonymous, missing endpoints, attributes) is converted with prov_to_graph and compared with a "
             "reference graph computed from the reference unification (after two decoy documents using the same names in other roles were converted): node multiset, inferred nodes and their kinds, edge multiset "
             "with endpoints by URI and the carried relation, MultiDiGraph-ness; graph_to_prov must return the unified "
             "document restricted to elements and two-ended relations.", TECH, NOTE),
-    "C15": ("A product of 29 graph structures (n-ary, annotated, one-ended, parallel, self-loop, 0-2 bundles sharing URIs "
-            "with the document) and 15 markup-significant texts x 7 positions (label, value, URI value, qualified-name "
+    "C15": ("A product of 35 graph structures (n-ary, annotated, one-ended, parallel, self-loop, 0-2 bundles sharing URIs, duplicates inside a bundle only, cross-scope references "
+            "with the document) and 18 markup-significant texts x 7 positions (label, value, URI value, qualified-name "
             "value, attribute name, identifier, bundle identifier) x 3 placements, plus all states of a bundle-aware "
             "history alphabet to depth 2 (thorough 3), each under all 80 option sets; Graphviz (dot -Tdot_json) must "
             "accept the text and the parsed structure (clusters, element nodes per unified record and cluster, generic "
             "nodes, relation paths, n-ary legs, annotation tables, HTML-like label skeletons and texts) must equal the "
             "expectation.", TECH + "; Graphviz as independent DOT reader", NOTE + "; Graphviz 2.43 is trusted as DOT and HTML-like label parser"),
     "C16": ("Full product of 14 documents (non-ASCII identifiers and values, bundles, 20 kB string, dense non-ASCII, Unicode line separators; inside the C01/C02/"
-            "C07 spaces) x 4 formats + 3 writer-option variants x 6 destinations (returned str, StringIO, GB18030 text file, tempfile text wrapper, binary stream, path with non-ASCII and %XX in its name) compared "
+            "C07 spaces) x 4 formats + 3 writer-option variants x 8 destinations (returned str, StringIO, GB18030 text file, tempfile text and binary wrappers, codecs writer, binary stream, path with non-ASCII and %XX in its name, relative path from two working directories) compared "
             "pairwise (bytes = UTF-8 of the text; XML by canonical form), then x 9 sources (content str/bytes, text/"
             "binary stream seekable and non-seekable, GB18030 text file, tempfile text wrapper, path) x up to 4 readers (deserialize, prov.read with format in "
             "either case, prov.read without format - an exploration of the stream position its detection attempts "
-            "leave behind); PROV-N must not be read back.", "exhaustive enumeration of the finite product of documents, "
+            "leave behind); PROV-N must not be read back.  The path destination and path source are also exercised in a child process whose default text encoding is ASCII (LC_ALL=C): same bytes, same document.  Other non-UTF-8 locales are not installed here.", "exhaustive enumeration of the finite product of documents, "
             "formats, destination kinds, source kinds and readers on the real API (environment-answer enumeration)", NOTE),
     "C17": ("Fault enumeration at the system-call boundary (LD_PRELOAD shim native/faultfs.c interposing write, rename*, "
             "sendfile, copy_file_range, open*, unlink, fsync for sandbox paths): full product of 4 formats x document "
-            "sizes (1, several, many write calls) x 14 destination names (relative, absolute, space, non-ASCII, '#', '?', '%20', '%', '&', '~', "
+            "sizes (1, several, many write calls) x 15 destination names (incl. a symbolic link to a regular file) (relative, absolute, space, non-ASCII, '#', '?', '%20', '%', '&', '~', "
             "';', ':', sub-directory; given as str, pathlib.Path and bytes) x pre-existing/absent x every schedule with <= 1 (thorough 2) deviations from the "
             "fault-free call sequence: k-th write fails or is short for every k, the move fails once, fails every time (EACCES / EPERM) or answers EXDEV and the "
             "copy fallback's steps fail, close fails, temp-file removal fails, the serialiser itself raises.  Success must create "
